@@ -9,6 +9,49 @@ From Coq Require Import List NArith ZArith Bool Arith Lia Permutation.
 Import ListNotations.
 From LC.Base Require Import Utf8 Float64 Sort SortProof Float64Proof.
 From LC.V2 Require Import Tok SSet Match ScoringProof MatchND MatchWF.
+From LC.V2 Require Import Glue.
+
+(* THE PROPERTY, composed end to end (scoring model + float64): with R' the span minus the reported offsets and K the document, an accepted match has Confidence <= fl(1 - fl(L/|K|)) for the true word-level Levenshtein distance L = lev R' K; a rejected one has confidence +0; Confidence = 1.0 only if R' = K *)
+(* statement as proved in V2/Glue.v (written out; checked against the lemma by exact) *)
+Theorem C02_confidence_bound :
+  forall (C : config) (d : cdoc) (s e : N) (raw : list diff) (R : list N) (lname : str) 
+           (cnf : f64) (so eo : Z),
+         cf_diff C (cd_key d) s e = Some raw ->
+         valid_script raw R (cd_ids d) ->
+         wf_script (cf_word C) raw ->
+         D3 raw ->
+         key_part (cd_key d) 1 = Some lname ->
+         score C d s e = Ok (cnf, so, eo) ->
+         0 < length (cd_ids d) ->
+         (Z.of_nat (length (cd_ids d)) < 2 ^ 53)%Z ->
+         (Z.of_nat (length R) < 2 ^ 53)%Z ->
+         let K := cd_ids d in
+         let R' := firstn (length R - Z.to_nat so - Z.to_nat eo) (skipn (Z.to_nat so) R) in
+         (score_scan (cf_is_digit C) lname (trimmed C d raw) [] [] = None ->
+          fle cnf (conf (Z.of_nat (length K)) (Z.of_nat (lev R' K))) = true) /\
+         ((exists c : Z, score_scan (cf_is_digit C) lname (trimmed C d raw) [] [] = Some c) ->
+          cnf = fzero /\ so = 0%Z /\ eo = 0%Z /\ R' = R) /\
+         (lev R' K <= length K -> fle cnf (conf (Z.of_nat (length K)) (Z.of_nat (lev R' K))) = true) /\
+         (feq cnf fone = true -> R' = K).
+Proof. exact (@C02_confidence_bound). Qed.
+Print Assumptions C02_confidence_bound.
+
+(* why the bound is stated for accepted matches: for a rejected candidate (confidence 0 by decision, not by distance) 1 - L/|K| can be negative *)
+(* statement as proved in V2/Glue.v (written out; checked against the lemma by exact) *)
+Theorem C02_rejected_case_needs_the_guard :
+  let C := C02_Counterexample.cfg in
+         let d := C02_Counterexample.doc in
+         let R := C02_Counterexample.Rin in
+         cf_diff C (cd_key d) 0 6 = Some C02_Counterexample.raw /\
+         valid_script C02_Counterexample.raw R (cd_ids d) /\
+         wf_script (cf_word C) C02_Counterexample.raw /\
+         D3 C02_Counterexample.raw /\
+         key_part (cd_key d) 1 = Some [65%N] /\
+         score C d 0 6 = Ok (fzero, 0%Z, 0%Z) /\
+         lev R (cd_ids d) = 5 /\
+         fle fzero (conf (Z.of_nat (length (cd_ids d))) (Z.of_nat (lev R (cd_ids d)))) = false.
+Proof. exact (@C02_rejected_counterexample). Qed.
+Print Assumptions C02_rejected_case_needs_the_guard.
 
 (* Main theorem: for ANY valid script the confidence is 1 - D/|K| (as float64) for a D that is at least the true Levenshtein distance between the document and the span with exactly so leading / eo trailing words removed; D = 0 only if they are identical; otherwise the match was rejected with confidence 0. *)
 Theorem C02_distance_and_span : forall C d s e raw R lname conf so eo,
@@ -72,10 +115,19 @@ Proof. exact conf_one_iff. Qed.
 Print Assumptions C02_confidence_one_iff_zero_distance.
 
 (* float64: the confidence is the correctly rounded 1 - round(d/k) *)
-(* statement as proved in Base/Float64Proof.v (restated through its type) *)
-Theorem C02_confidence_value : ltac:(let t := type of (@conf_value) in exact t).
+(* statement as proved in Base/Float64Proof.v (written out; checked against the lemma by exact) *)
+Theorem C02_confidence_value :
+  forall k d : Z,
+         (0 < k < 2 ^ 53)%Z ->
+         (0 <= d < 2 ^ 53)%Z ->
+         BinarySingleNaN.SF2R Zaux.radix2 (conf k d) =
+         Generic_fmt.round Zaux.radix2 (FLT.FLT_exp (3 - 1024 - 53) 53)
+           (Generic_fmt.Znearest (fun x : Z => negb (Z.even x)))
+           (Rdefinitions.Rminus (Rdefinitions.IZR 1)
+              (Generic_fmt.round Zaux.radix2 (FLT.FLT_exp (3 - 1024 - 53) 53)
+                 (Generic_fmt.Znearest (fun x : Z => negb (Z.even x)))
+                 (Rdefinitions.Rdiv (Rdefinitions.IZR d) (Rdefinitions.IZR k)))).
 Proof. exact (@conf_value). Qed.
-Check C02_confidence_value.
 Print Assumptions C02_confidence_value.
 
 (* non-vacuity: a concrete valid script with trimming, see ScoringProof.Examples *)
